@@ -74,6 +74,10 @@ def handle (ws : List String) : String :=
     match str? lab, (if which == "d" then some Tables.protectDefault else if which == "n" then some Tables.protectNewick else none) with
     | some (some l), some prot => hexS (escape (ps == "1") (qu == "1") prot l)
     | _, _ => "bad-op"
+  | ["taxlabels", ps, uu, ns] =>
+    match strList? ns with
+    | some ns => hexS (taxlabelsText (ps == "1") (uu == "1") ns)
+    | none => "bad-op"
   | ["tokens", pu, text] =>
     match str? text with
     | some (some s) =>
